@@ -28,7 +28,7 @@ from . import dsl
 # generic deep fingerprint of implementation objects
 # ---------------------------------------------------------------------------------------
 
-_ITEM = re.compile(r"^i\d+$")
+_ITEM = re.compile(r"^[iv]\d+$")
 
 
 def fingerprint(obj, rename=None, depth=8, _seen=None):
@@ -318,6 +318,11 @@ def expand(args):
     fine = opts.get("fine", False)
     pairs = opts.get("pairs", True)
     maxk = opts.get("maxk", 40)
+    if hasattr(model, "probe"):
+        pv = model.probe(hist, info, fine=fine)
+        out["probes"] = out.get("probes", 0) + 1
+        if pv:
+            out["violations"].append({"hist": hist, "what": pv, "log": []})
     for salt in opts.get("salts", [1]):
         for e1 in model.events(info):
             steps = [[e1]]
